@@ -74,7 +74,7 @@ def Goal_pull_loop_terminates : Prop :=
 
 /-! ## non-vacuity -/
 def exEng : Eng := { stages :=
-  [ { cfg := { kind := .clocked, prePost := 15, den := 80, step := 147, poly0 := true }, st := { occ := 8, clk := 40, isz := 8192 } },
+  [ { cfg := { kind := .clocked, prePost := 15, den := 80, step := 147, poly0 := true, taps := 16 }, st := { occ := 8, clk := 40, isz := 8192 } },
     { cfg := { kind := .half, prePost := 32 }, st := { occ := 16, isz := 8192 } },
     { cfg := { kind := .dft, L := 2, dftLen := 2048, numTaps := 409, M := 1 }, st := { occ := 102, clk := 0, isz := 1024 } } ] }
 
